@@ -71,7 +71,7 @@ def tputsAux (strict : Bool) (padChar : Bytes) : Nat → Bytes → Out → Out
 def tputsV (strict : Bool) (padChar : Bytes) (s : Bytes) : Out := tputsAux strict padChar (s.length + 1) s {}
 
 /-- THE SWITCH for TPuts: `false` = pinned tree, `true` once fixes/C15-tputs-nonpadding.patch is committed -/
-def currentStrict : Bool := false
+def currentStrict : Bool := true
 
 def tputs (padChar : Bytes) (s : Bytes) : Out := tputsV currentStrict padChar s
 
